@@ -197,6 +197,16 @@ theorem strOk_elide (a b : Str) (h : StrOk a) : StrOk (if a = b then [] else a) 
 /-- the stored form of a string that is elided when equal to the headword -/
 def stored (form headword : Str) : Str := if form = headword then [] else form
 
+/-- the record depends on the entry only through the stored fields -/
+theorem encWordInfo_congr (e1 e2 : Entry) (h1 : e1.headwordS = e2.headwordS) (h2 : e1.surface = e2.surface) (h3 : e1.pos = e2.pos)
+    (h4 : stored e1.normS e1.headwordS = stored e2.normS e2.headwordS) (h5 : e1.dicForm = e2.dicForm)
+    (h6 : stored e1.readingS e1.headwordS = stored e2.readingS e2.headwordS)
+    (h7 : e1.splitsA = e2.splitsA) (h8 : e1.splitsB = e2.splitsB) (h9 : e1.wordStructure = e2.wordStructure)
+    (h10 : e1.synonyms = e2.synonyms) : encWordInfo e1 = encWordInfo e2 := by
+  unfold stored at h4 h6
+  unfold encWordInfo
+  rw [h4, h6, h1, h2, h3, h5, h7, h8, h9, h10]
+
 /-- `WordInfoParser::parse (write_word_info e ++ rest)`: every field comes back as written -/
 theorem parseWordInfo_enc (e : Entry) (wf : e.WF) (rest : Bytes) :
     parseWordInfo (encWordInfo e ++ rest) = some
